@@ -256,9 +256,11 @@ class ScenarioManagerSd(ScenarioManager):
             for scenario in self.scenarios.values():
                 if scenario.model == None:
                     scenario.model = model_class()
-                    scenario.starttime = scenario.model.starttime
-                    scenario.stoptime = scenario.model.stoptime
-                    scenario.dt = scenario.model.dt
+                    # the model's run specs apply unless the scenario brings its own
+                    runspecs = scenario.dictionary.get("runspecs", {})
+                    scenario.starttime = runspecs.get("starttime", scenario.model.starttime)
+                    scenario.stoptime = runspecs.get("stoptime", scenario.model.stoptime)
+                    scenario.dt = runspecs.get("dt", scenario.model.dt)
                     scenario.setup_constants()
                     scenario.setup_points()
 
